@@ -249,7 +249,19 @@ def check_c04(opts):
                 evals += 1; distinct.add((kn, tuple(items)))
                 if got != exp:
                     fails.append({'key_mapper': kn, 'input': items, 'expected': exp, 'got': got})
-    return result('e2e.C04.group_by', 'all sequences over {0..3} of length <= 4 plus longer ones, 8 key mappers incl. equal-not-identical keys', evals, len(distinct), fails, False, t0)
+    # group_by nested in windows: every window has its own groups, completed in order of first appearance (slot / index reuse across windows)
+    seqs = [[(d, c) for d, c in zip(ds, cs)] for ds in ([0, 0, 0, 1, 1, 1, 2, 2, 2], [0, 0, 1, 1, 1, 1, 1, 2, 2]) for cs in ('abcabccba', 'aabbcabca', 'abcbcacab', 'cbacbaabc')]
+    for items in seqs:
+        for wn, wrap, parts in (('split(day)', lambda p: rs.data.split(lambda i: i[0], p), split_spec(items, lambda i: i[0])),
+                                ('roll(3,3)', lambda p: rs.data.roll(3, 3, p), [items[i:i + 3] for i in range(0, len(items), 3)]),
+                                ('group_by(day)', lambda p: rs.ops.group_by(lambda i: i[0], p), group_by_spec(items, lambda i: i[0]))):
+            got = run_mux(items, wrap(rx.pipe(rs.ops.group_by(lambda i: i[1], rx.pipe(rs.data.to_list())), rs.data.to_list())))
+            exp = [group_by_spec(p, lambda i: i[1]) for p in parts]
+            evals += 1; distinct.add((wn, tuple(items)))
+            if got != exp:
+                fails.append({'pipeline': f'{wn} > group_by(category) > to_list', 'input': items, 'expected (per window, groups in order of first appearance)': exp, 'got': got})
+    return result('e2e.C04.group_by', 'all sequences over {0..3} of length <= 4 plus longer ones, 8 key mappers incl. equal-not-identical keys; group_by nested in split / roll / group_by over 3 windows',
+                  evals, len(distinct), fails, False, t0)
 
 
 def check_c05(opts):
@@ -290,7 +302,20 @@ def check_c06(opts):
                 evals += 1
                 if got != split_spec(items, pf):
                     fails.append({'predicate': pn, 'input': items, 'expected': split_spec(items, pf), 'got': got})
-    return result('e2e.C06.split', 'all sequences over {0..3} of length <= 5 x 5 predicates (exhaustive)', evals, evals, fails, True, t0)
+    # split nested in split / roll / group_by: a re-created key starts a fresh segment whatever the previous window ended with
+    for n in range(0, 7):
+        for bits in itertools.product((0, 1), repeat=n):
+            items = [(i // 3, b) for i, b in enumerate(bits)]
+            for wn, wrap, parts in (('split(i//3)', lambda p: rs.data.split(lambda i: i[0], p), split_spec(items, lambda i: i[0])),
+                                    ('roll(3,3)', lambda p: rs.data.roll(3, 3, p), [items[i:i + 3] for i in range(0, len(items), 3)]),
+                                    ('group_by(parity of position)', lambda p: rs.ops.group_by(lambda i: i[0] % 2, p), group_by_spec(items, lambda i: i[0] % 2))):
+                got = run_mux(items, wrap(rx.pipe(rs.data.split(lambda i: i[1], rx.pipe(rs.data.to_list())), rs.data.to_list())))
+                exp = [split_spec(p, lambda i: i[1]) for p in parts]
+                evals += 1
+                if got != exp:
+                    fails.append({'pipeline': f'{wn} > split(bit) > to_list', 'input': items, 'expected': exp, 'got': got})
+    return result('e2e.C06.split', 'all sequences over {0..3} of length <= 5 x 5 predicates (exhaustive); all bit sequences of length <= 6 with split nested in split / roll(3,3) / group_by',
+                  evals, evals, fails, True, t0)
 
 
 def check_c07(opts):
@@ -357,7 +382,23 @@ def check_c08(opts):
                     evals += 1
                     if got != exp:
                         fails.append({'branches': [b for b, _ in bs], 'join': join, 'mode': mode, 'input': items, 'expected': exp, 'got': got})
-    return result('e2e.C08.tee_map', '2-4 branches from 6 pipelines x 3 joins x mux/plain x 4 inputs', evals, evals, fails, False, t0)
+    # nested tee_map, also as the first operator of a non-last branch, on a state store (probe / create events are emitted synchronously at connect time)
+    inner = lambda: rs.ops.tee_map(rx.pipe(rs.ops.count()), rx.pipe(rs.math.max()), join='zip')
+    for items in ([3, 1, 4], [2, 7, 1, 8]):
+        for name, mk, exp in (
+            ('tee_map(tee_map(count,max), sum)', lambda: rs.ops.tee_map(rx.pipe(inner()), rx.pipe(rs.math.sum())), None),
+            ('tee_map(sum, tee_map(count,max))', lambda: rs.ops.tee_map(rx.pipe(rs.math.sum()), rx.pipe(inner())), None),
+            ('tee_map(count, tee_map(count,max), sum)', lambda: rs.ops.tee_map(rx.pipe(rs.ops.count()), rx.pipe(inner()), rx.pipe(rs.math.sum())), None)):
+            cnt = list(range(1, len(items) + 1)); mx = [max(items[:i + 1]) for i in range(len(items))]; sm = [float(sum(items[:i + 1])) for i in range(len(items))]
+            pair = list(zip(cnt, mx))
+            want = {'tee_map(tee_map(count,max), sum)': list(zip(pair, sm)), 'tee_map(sum, tee_map(count,max))': list(zip(sm, pair)),
+                    'tee_map(count, tee_map(count,max), sum)': list(zip(cnt, pair, sm))}[name]
+            for mode in ('mux', 'plain'):
+                got = run_mux(items, mk()) if mode == 'mux' else run_plain(items, mk())
+                evals += 1
+                if got != want:
+                    fails.append({'pipeline': name, 'mode': mode, 'input': items, 'expected': want, 'got': got if isinstance(got, list) else str(got)[:200]})
+    return result('e2e.C08.tee_map', '2-4 branches from 6 pipelines x 3 joins x mux/plain x 4 inputs; nested tee_map in first / last / middle branch', evals, evals, fails, False, t0)
 
 
 # ---------------------------------------------------------------------------------------------- C09 / C10 / C11 / C13
@@ -371,14 +412,14 @@ def check_c09(opts):
             s = acc(s, x); out.append(__import__('copy').deepcopy(s))
         return out, s
     accs = [('add', lambda a, i: a + i, 0), ('append', lambda a, i: (a.append(i), a)[1], list), ('append_value_seed', lambda a, i: (a.append(i), a)[1], []),
-            ('tuple', lambda a, i: (a[0] + i, a[1] + 1), (0, 0))]
+            ('tuple', lambda a, i: (a[0] + i, a[1] + 1), (0, 0)), ('list_inside_tuple_seed', lambda a, i: (a[0].append(i), (a[0], a[1] + 1))[1], ([], 0))]
     for items in ([], [5], [1, 2, 3], [3, 1, 4, 1, 5, 9, 2, 6]):
         groups = group_by_spec(items, lambda i: i % 3)
         for an, acc, seed in accs:
             for reduce in (False, True):
                 for term in (None, 'fn'):
                     # results keep the seed's type (C01/C09 precondition: state lives in typed arrays)
-                    tf = ({'add': lambda a: a + 1000, 'tuple': lambda a: (a[0] + 1000, a[1])}.get(an, lambda a: (a.append('T'), a)[1])) if term else None
+                    tf = ({'add': lambda a: a + 1000, 'tuple': lambda a: (a[0] + 1000, a[1]), 'list_inside_tuple_seed': lambda a: (a[0], a[1] + 1000)}.get(an, lambda a: (a.append('T'), a)[1])) if term else None
                     got = run_mux(items, rs.ops.group_by(lambda i: i % 3, rx.pipe(rs.ops.scan(acc, seed, reduce=reduce, terminator=tf),
                                                                                    rs.ops.map(lambda v: __import__('copy').deepcopy(v)), rs.data.to_list())))
                     exp = []
@@ -392,6 +433,18 @@ def check_c09(opts):
                     evals += 1
                     if got != exp:
                         fails.append({'accumulator': an, 'reduce': reduce, 'terminator': bool(term), 'input': items, 'expected': exp, 'got': got})
+    # successive lifetimes of one key slot (windows) and empty keys: every lifetime starts from a fresh copy of the seed; the terminator runs once, also for an empty key
+    for an, acc, seed in accs:
+        items = [1, 2, 3, 4, 5, 6, 7]
+        got = run_mux(items, rs.data.roll(3, 3, [rs.ops.scan(acc, seed, reduce=True), rs.ops.map(lambda v: __import__('copy').deepcopy(v))]))
+        exp = [fold(acc, seed, w)[1] for w in ([1, 2, 3], [4, 5, 6], [7])]
+        evals += 1
+        if got != exp: fails.append({'accumulator': an, 'pipeline': 'roll(3,3,[scan(reduce=True)])', 'input': items, 'expected': exp, 'got': got})
+    calls = []
+    got = run_mux([1, 2, 3, 5], rs.ops.group_by(lambda i: i % 2, rx.pipe(rs.ops.filter(lambda i: i != 2), rs.ops.scan(lambda a, i: a + i, 0, reduce=True, terminator=lambda a: (calls.append(a), a + 1000)[1]))))
+    evals += 1
+    if got != [1009, 1000] or sorted(calls) != [0, 9]:
+        fails.append({'pipeline': 'group_by(i%2, [filter(!=2), scan(add, 0, reduce=True, terminator=+1000)])', 'input': [1, 2, 3, 5], 'expected': ([1009, 1000], 'terminator called on 9 and on the seed 0'), 'got': (got, calls)})
     # reduce on an empty key yields the seed
     got = run_mux([], rs.ops.scan(lambda a, i: a + i, 7, reduce=True))
     evals += 1
@@ -511,7 +564,38 @@ def check_c13(opts):
             expect_err = bool(bad)
             if expect_err != (isinstance(got, tuple) and got and got[0] == 'ERROR') or (not expect_err and got != items):
                 fails.append({'operator': opname, 'handler': 'none', 'failing_items': bad, 'expected': 'on_error' if expect_err else items, 'got': got})
-    return result('e2e.C13.errors', '4 operators x 6 failing subsets x {ignore, error.map, router, none}', evals, evals, fails, False, t0)
+    # keyed runs: the failing item may be the first of a run of same-key items, the first item of the stream, consecutive ...
+    keysets = [p for n in range(1, 6) for p in itertools.product('ab', repeat=n)]
+    for ks in keysets:
+        items = [(k, 10 ** (j % 3) * (1 if k == 'a' else 3)) for j, k in enumerate(ks)]
+        for nbad in range(0, 3):
+            for badpos in itertools.combinations(range(len(items)), nbad):
+                bad = {items[j] + (j,) for j in badpos}
+                tagged = [it + (j,) for j, it in enumerate(items)]
+                def acc(a, it):
+                    if it in bad: raise ValueError(it)
+                    return a + it[1]
+                got = run_mux(tagged, rs.ops.group_by(lambda i: i[0], rx.pipe(rs.ops.scan(acc, 0), rs.error.ignore(), rs.data.to_list())))
+                exp = []
+                for g in group_by_spec(tagged, lambda i: i[0]):
+                    tot = 0; run = []
+                    for it in g:
+                        if it in bad: continue
+                        tot += it[1]; run.append(tot)
+                    exp.append(run)
+                evals += 1
+                if got != exp:
+                    fails.append({'operator': 'scan (running sum per key)', 'handler': 'ignore', 'keyed_input': tagged, 'failing_positions': list(badpos), 'expected': exp, 'got': got})
+                    if len(fails) > 6: break
+            if len(fails) > 6: break
+        if len(fails) > 6: break
+    # error.map keeps the store on the replaced item: a stateful operator downstream keeps working
+    got = run_mux([1, 2, 0, 4, 0, 4], rs.ops.group_by(lambda i: i % 2, rx.pipe(rs.ops.map(lambda i: 1 / i), rs.error.map(lambda e: 0.0), rs.ops.scan(lambda a, i: a + i, 0.0))))
+    evals += 1
+    if got != [1.0, 0.5, 0.5, 0.75, 0.75, 1.0]:
+        fails.append({'pipeline': 'group_by > map(1/x) > error.map(0.0) > scan(sum)', 'input': [1, 2, 0, 4, 0, 4], 'expected': [1.0, 0.5, 0.5, 0.75, 0.75, 1.0], 'got': got})
+    return result('e2e.C13.errors', '4 operators x 6 failing subsets x {ignore, error.map, router, none}; all key sequences over {a,b} of length <= 5 x all failing subsets of size <= 2 through scan+ignore; '
+                  'stateful operator after error.map', evals, evals, fails, False, t0)
 
 
 # ---------------------------------------------------------------------------------------------- C12 numeric accuracy
@@ -646,4 +730,64 @@ def check_c14(opts):
                 elif op == 'iterate_map':
                     got = list(st.iterate_map(key))
                     if got != list(model[idx]): fails.append({'mapper_operations': log[:], 'expected': list(model[idx]), 'got': got})
-    return result('e2e.C14.store', '9 (data type, default) configurations x seeded random operation sequences over sparse indices {0,1,2,3,5,9}; mapper sequences', evals, evals, fails, False, t0)
+    # mapper with releases: complete a key the way group_by does (del_map on every entry, then del_key), then map new keys while others are alive
+    def mapper_run(script):
+        st = MemoryStore(data_type='mapper')
+        live = {}                         # (slot index, map key) -> handed-out index, for entries of live slots
+        order = {}
+        for step in script:
+            op = step[0]; key = (step[1], (0,))
+            if op == 'add_key':
+                for k in [k for k in live if k[0] == step[1]]: del live[k]
+                st.add_key(key); order[step[1]] = []
+            elif op == 'add_map':
+                if st.get_map(key, step[2]) is NOT:
+                    i = st.add_map(key, step[2])
+                    if i in live.values():
+                        return f'add_map returned index {i} which is still in use by {[k for k, v in live.items() if v == i]}'
+                    live[(step[1], step[2])] = i; order[step[1]].append(step[2])
+            elif op == 'del_map':
+                st.del_map(key, step[2])
+                if st.get_map(key, step[2]) is NOT:          # the store may or may not forget the entry: follow what it does
+                    live.pop((step[1], step[2]), None)
+                    if step[2] in order[step[1]]: order[step[1]].remove(step[2])
+            elif op == 'del_key':
+                st.del_key(key)
+                for k in [k for k in live if k[0] == step[1]]: del live[k]
+            elif op == 'iterate_map':
+                got = list(st.iterate_map(key))
+                if got != order[step[1]]:
+                    return f'iterate_map({step[1]}) = {got}, expected insertion order {order[step[1]]}'
+        return None
+    directed = [
+        [('add_key', 0), ('add_map', 0, 'a'), ('add_map', 0, 'b'), ('del_map', 0, 'a'), ('del_map', 0, 'b'), ('del_key', 0), ('add_key', 1), ('add_key', 2),
+         ('add_map', 1, 'x'), ('add_map', 2, 'y'), ('add_map', 1, 'z'), ('add_map', 2, 'w'), ('iterate_map', 1), ('iterate_map', 2)],
+        [('add_key', 0), ('add_map', 0, 'a'), ('add_map', 0, 'b'), ('add_map', 0, 'c'), ('del_map', 0, 'a'), ('del_map', 0, 'b'), ('del_map', 0, 'c'), ('del_key', 0),
+         ('add_key', 0), ('add_map', 0, 'p'), ('add_map', 0, 'q'), ('add_map', 0, 'r'), ('iterate_map', 0)],
+    ]
+    scripts = list(directed)
+    for trial in range(60 if tier == 'quick' else 600):
+        sc = [('add_key', 0), ('add_key', 1)]
+        for _ in range(rnd.randint(4, 18)):
+            idx = rnd.choice([0, 1, 3]); mk = rnd.choice('abcd')
+            op = rnd.choice(['add_map', 'add_map', 'del_map', 'iterate_map', 'complete', 'add_key'])
+            if op == 'complete':
+                sc += [('del_map', idx, m) for m in 'abcd'] + [('del_key', idx), ('add_key', idx)]
+            elif op == 'add_key': sc.append(('add_key', idx))
+            else: sc.append((op, idx, mk) if op != 'iterate_map' else (op, idx))
+        sc = [s_ for s_ in sc]
+        scripts.append(sc)
+    for sc in scripts:
+        try:
+            # make sure every slot used is added first
+            used = {s_[1] for s_ in sc}
+            pre = [('add_key', u) for u in used if not any(x[0] == 'add_key' and x[1] == u for x in sc[:sc.index(next(y for y in sc if y[1] == u)) + 1])]
+            msg = mapper_run(pre + sc)
+        except Exception as ex:
+            msg = f'{type(ex).__name__}: {ex}'
+        evals += 1
+        if msg:
+            fails.append({'mapper_script': (pre + sc)[:24], 'problem': msg})
+            if len(fails) > 5: break
+    return result('e2e.C14.store', '9 (data type, default) configurations x seeded random operation sequences over sparse indices {0,1,2,3,5,9}; mapper sequences incl. release '
+                  '(del_map / del_key as group_by does) followed by new mappings, iterate_map order', evals, evals, fails, False, t0)
